@@ -51,7 +51,11 @@ def check_case(case, ctx=None, only_tagging=None):
     prog = case["prog"] if "prog" in case else case
     n = len(prog["inputs"])
     f = G.build(prog, isp="bind", isp_prim=_prim())
-    f_ref = G.build(prog, isp="inline")
+    # ordinary evaluation: the same Python function called directly (it shares the compiled eager
+    # executables of its control-flow primitives with the interpreter run, which halves the XLA
+    # compilations); when the program binds an initial-style primitive, the reference is the
+    # pure-JAX build in which the wrapped function is called directly
+    f_ref = G.build(prog, isp="inline") if G.has_isp(prog) else f
     val = G.input_values(prog, "val")
     alt = G.input_values(prog, "alt")
     inc = incremental(f)
